@@ -1,7 +1,27 @@
 """Reviewed tables: instances confirmed safe by reading, one named site per entry (no line numbers).
 An entry suppresses exactly that key; if the construct changes, the key changes and the entry no longer matches."""
 
-REVIEWED = {
+import re as _re
+
+
+def norm_key(k):
+    """violation keys are compared modulo closure numbering (`::{closure#N}` segments): moving a site into or out of a
+    closure, or adding a closure before it, does not make it a different site"""
+    return _re.sub(r"::\{closure#\d+\}", "", k)
+
+
+class _Reviewed(dict):
+    def __init__(self, d):
+        super().__init__({norm_key(k): v for k, v in d.items()})
+
+    def __contains__(self, k):
+        return dict.__contains__(self, norm_key(k))
+
+    def __getitem__(self, k):
+        return dict.__getitem__(self, norm_key(k))
+
+
+_RAW = {
     "R1d|fixtures::cli::<impl fixtures::FixtureDatabase>::has_visible_fixtures+fixtures::cli::<impl fixtures::FixtureDatabase>::has_visible_fixtures::{closure#1}":
         "walk over the parent->children map built in print_fixtures_tree from Path::parent(): a child path is strictly "
         "longer than its key, so the map is acyclic; a map lookup is deliberately not accepted as destructuring",
@@ -34,3 +54,5 @@ REVIEWED = {
     "R7c|main|expect on build":
         "tokio runtime construction at process start-up, before any request is served (not reachable from document content or requests)",
 }
+
+REVIEWED = _Reviewed(_RAW)
